@@ -570,6 +570,16 @@ func (a *Agent) handleUDPOpenAck(peerID identity.AgentID, frame *protocol.Frame)
 	dest := lookup.Dest
 	a.udpIngressMu.RUnlock()
 
+	// Only the first answer to an open counts. A duplicated or replayed ack must
+	// not re-key an established association: that would restart the nonce
+	// sequence (and, the ephemeral private key being zeroed by then, derive the
+	// key from public values only).
+	select {
+	case <-dest.PendingOpen:
+		return
+	default:
+	}
+
 	ack, err := protocol.DecodeUDPOpenAck(frame.Payload)
 	if err != nil {
 		return
